@@ -59,3 +59,53 @@ func VH_C01_root() {
 		vAssert(invPtr(p), "C01.root.inv")
 	}
 }
+
+// The same on a segment whose slice has SPARE CAPACITY (a prefix of a pooled buffer): the bytes
+// beyond len are not part of the message. What readPtr accepts lies within len, and what the
+// accessors hand out is taken from within len - nothing is read from the spare capacity.
+func VH_C01_establish_spare_capacity() {
+	n := vNondetInt()
+	c := vNondetInt()
+	vAssume(n >= 8 && n <= c && c <= 1<<32-8 && n%8 == 0)
+	data := vNondetBytesCap(n, c)
+	msg := &Message{Arena: SingleSegment(data), TraverseLimit: vNondetU64(), DepthLimit: uint(vNondetU64())}
+	seg, err := msg.Segment(0)
+	vAssume(err == nil)
+	paddr := address(vNondetU32())
+	vAssume(int64(paddr)%8 == 0 && int64(paddr)+8 <= int64(n))
+	d := uint(vNondetU64())
+	p, err := seg.readPtr(paddr, d)
+	vReach("returned")
+	if err != nil {
+		return
+	}
+	vReach("ok")
+	vAssert(invPtr(p), "C01.spare.accepted-object-lies-within-len")
+	if !invPtr(p) {
+		return
+	}
+	switch p.flags.ptrType() {
+	case structPtrType:
+		s := p.Struct()
+		off := DataOffset(vNondetU32())
+		vAssume(uint64(off) < 1<<20)
+		v := s.Uint8(off)
+		if int64(off) < int64(s.size.DataSize) {
+			vAssert(v == seg.data[int64(s.off)+int64(off)], "C01.spare.field-is-a-byte-of-the-segment")
+		} else {
+			vAssert(v == 0, "C01.spare.field-beyond-the-data-section-is-default")
+		}
+		i := uint16(vNondetU16())
+		has := s.HasPtr(i)
+		if int(i) >= int(s.size.PointerCount) {
+			vAssert(!has, "C01.spare.pointer-beyond-the-section-is-absent")
+		}
+	case listPtrType:
+		if b := p.Data(); b != nil {
+			vAssert(vWithin(b, seg.data), "C01.spare.data-within-len")
+		}
+		if b := p.TextBytes(); b != nil {
+			vAssert(vWithin(b, seg.data), "C01.spare.text-within-len")
+		}
+	}
+}
